@@ -15,7 +15,7 @@ CROSS = {"C01-5": ["C09"], "C02-2": ["C20"], "C02-5": ["C20"], "C08-4": ["C05", 
 def run(name, check):
     out = subprocess.run(
         [os.path.join(ROOT, "tools", "run_seeded.sh"), name, check, "quick"],
-        capture_output=True, text=True,
+        capture_output=True, text=True, env=dict(os.environ, SAVE_REPLAY="1"),
     ).stdout
     clause = ""
     for line in out.splitlines():
